@@ -95,7 +95,7 @@ def generate(seed, mode):
 
 
 def execute(program, ctx, mode):
-    from zope.interface import Interface, Attribute, classImplements, directlyProvides, implementedBy, Invalid
+    from zope.interface import Interface, Attribute, classImplements, classImplementsOnly, directlyProvides, implementedBy, Invalid
     from zope.interface.interface import InterfaceClass, Specification, Method
     from zope.interface.declarations import Declaration, _empty
     from zope.interface import ro as zro
@@ -818,8 +818,21 @@ def execute(program, ctx, mode):
                     node[x].isOrExtends(node[t])
                     primed.append((x, t))
                 ctx.probe('primed-questions', len(primed))
+            via_decl = (kind[s] == 'impl' and isinstance(keep.get(s), type) and all(kind.get(b) == 'I' for b in mb)
+                        and h64(k, 'via-declaration-api') % 2 == 0)
             try:
-                node[s].__bases__ = tuple(node[b] for b in mb)
+                if via_decl:
+                    # the same re-basing done through the declaration API: an *only* declaration replaces the bases of the
+                    # class specification by exactly the interfaces given (possibly none)
+                    classImplementsOnly(keep[s], *[node[b] for b in mb])
+                    ctx.probe('rebase-impl-via-classImplementsOnly')
+                    real = [lab(x) for x in node[s].__bases__]
+                    if set(real) != set(mb):
+                        ctx.violation('C02', 'only-bases', 'C02|classImplementsOnly|bases-are-not-the-declared-interfaces',
+                                      {'node': s, 'declared': mb, 'bases': real})
+                    bases_of[s] = real
+                else:
+                    node[s].__bases__ = tuple(node[b] for b in mb)
                 raised = False
             except ICE:
                 raised = True
